@@ -61,6 +61,11 @@ def workload(r, n=1, c=0, big=False):
          "ordered": r.random() < 0.7}
     w["maxsize"] = max(s["size"] for s in streams)
     if r.random() < 0.3:
+        # the reading application answers on every bidirectional stream opened towards it
+        w["echo"] = r.choice([1, 100, 1200, 5000] + ([70000] if big else []))
+        w["echo_chunk"] = r.choice([1200, 5000, 1 << 20])
+        w["maxsize"] = max(w["maxsize"], w["echo"])
+    if r.random() < 0.3:
         w["dgrams"] = r.choice([1, 3, 10])
         w["dgram_size"] = r.choice([0, 1, 100, 1000])
     return w
@@ -418,8 +423,12 @@ def flow_script(r, idx, fate_vec=None):
             streams.append({"dir": r.choice([0, 1]), "size": size,
                             "chunk": r.choice([1, 64, 1000, 1 << 20]) if size <= 3000 else r.choice([1000, 5000, 1 << 20]),
                             "finish": r.random() < 0.9})
-        return {"do": "app", "n": n, "c": 0, "streams": streams, "read_max": r.choice([100, 1 << 20]),
-                "ordered": True, "maxsize": max(s["size"] for s in streams)}
+        a = {"do": "app", "n": n, "c": 0, "streams": streams, "read_max": r.choice([100, 1 << 20]),
+             "ordered": True, "maxsize": max(s["size"] for s in streams)}
+        if r.random() < 0.4:
+            a["echo"] = r.choice([1, 64, 65, 300] if tiny else [1, 64, 300, 3000, 16384])
+            a["echo_chunk"] = r.choice([64, 1000, 1 << 20])
+        return a
 
     steps.append(wl(1))
     steps.append({"do": "run_until", "what": "connected", "max_us": 20000000})
@@ -658,8 +667,12 @@ def progress_script(r, idx, fate_vec=None, drops_only=None):
         for _ in range(r.choice([1, 2, 3])):
             size = r.choice([1, 100, 1200, 3000] if tiny else [1, 1200, 5000, 20000, 70000])
             streams.append({"dir": r.choice([0, 0, 1]), "size": size, "chunk": r.choice([1000, 5000, 1 << 20]), "finish": True})
-        return {"do": "app", "n": n, "c": 0, "streams": streams, "read_max": 1 << 20, "ordered": True,
-                "maxsize": max(s["size"] for s in streams)}
+        a = {"do": "app", "n": n, "c": 0, "streams": streams, "read_max": 1 << 20, "ordered": True,
+             "maxsize": max(s["size"] for s in streams)}
+        if r.random() < 0.3:
+            a["echo"] = r.choice([1, 100, 1200, 3000] if tiny else [1, 1200, 20000])
+            a["echo_chunk"] = r.choice([1000, 5000, 1 << 20])
+        return a
 
     steps.append(wl(1))
     aux = []
